@@ -233,6 +233,105 @@ class Choosers(Facet):
             mat.cleanup()
 
 
+class MultipleInheritance(Facet):
+    """Hierarchies in which a production (or a nested abstract type) inherits from TWO abstract types of
+    the grammar, e.g. `class Var(Num, Cond)`. Whatever rules the library lists such a class under, the
+    weights of the productions it lists for each abstract type must be non-negative, sum to one, keep
+    the declared ratios, and stay the same when the grammar is extracted again. The classes are written
+    out by hand from generated parameters (the GrammarSpec family is single-inheritance)."""
+
+    name = "multiple_inheritance_hierarchies"
+
+    def budget(self, tier):
+        return (60, 2) if tier == "quick" else (600, 8)
+
+    def strategy(self, tier):
+        wt = st.one_of(st.none(), st.integers(1, 5), st.sampled_from([0.5, 2.0, 0.25]))
+        return st.builds(
+            lambda ws, order, nested, n: {"weights": ws, "second_base_first": order, "nested_abstract": nested, "extractions": n},
+            st.lists(wt, min_size=5, max_size=5),
+            st.booleans(),
+            st.booleans(),
+            st.integers(1, 3),
+        )
+
+    def run(self, case, rec):
+        import types
+
+        from geneticengine.grammar.grammar import extract_grammar
+
+        ws = case["weights"]
+        if all(w is None for w in ws):
+            rec.discard()
+            return
+
+        def deco(w):
+            return f"@weight({w!r})\n" if w is not None else ""
+
+        bases = "Cond, Num" if case["second_base_first"] else "Num, Cond"
+        src = (
+            "from abc import ABC\nfrom dataclasses import dataclass\nfrom geneticengine.grammar.decorators import weight\n"
+            "class Top(ABC):\n    pass\nclass Num(ABC):\n    pass\nclass Cond(ABC):\n    pass\n"
+            + deco(ws[0]) + "@dataclass\nclass Lit(Num):\n    v: int\n"
+            + deco(ws[1]) + f"@dataclass\nclass Var({bases}):\n    name: str\n"
+            + deco(ws[2]) + "@dataclass\nclass Not(Cond):\n    c: Cond\n"
+            + deco(ws[3]) + "@dataclass\nclass Neg(Num):\n    e: Num\n"
+            + deco(ws[4]) + "@dataclass\nclass Pair(Top):\n    a: Num\n    b: Cond\n"
+        )
+        if case["nested_abstract"]:
+            src += "class Both(Num, Cond):\n    pass\n@dataclass\nclass Leaf(Both):\n    pass\n"
+        mod = types.ModuleType("vk_c19_mi")
+        import sys
+
+        sys.modules[mod.__name__] = mod
+        try:
+            exec(compile(src, "<vk_c19_mi>", "exec"), mod.__dict__)  # noqa: S102 - generated class definitions
+            names = ["Top", "Num", "Cond", "Lit", "Var", "Not", "Neg", "Pair"] + (["Both", "Leaf"] if case["nested_abstract"] else [])
+            classes = [getattr(mod, n) for n in names]
+            decl = {"Lit": ws[0], "Var": ws[1], "Not": ws[2], "Neg": ws[3], "Pair": ws[4]}
+            rec.label("bases:" + bases, "nested-abstract" if case["nested_abstract"] else "flat")
+            rec.sample(case, limit=2)
+            prev = None
+            for it in range(case["extractions"]):
+                try:
+                    g = extract_grammar(classes, mod.Top)
+                except Exception as e:  # noqa: BLE001
+                    rec.discard()
+                    rec.label("discarded:" + type(e).__name__)
+                    return
+                wts = g.get_weights()
+                cur = {}
+                for a, prods in g.alternatives.items():
+                    vals = [wts.get(p, 1) for p in prods]
+                    pn = [p.__name__ for p in prods]
+                    cur[a.__name__] = dict(zip(pn, vals))
+                    if any(v < 0 for v in vals):
+                        rec.fail("C19/multiple-inheritance/negative-weight", f"rule {a.__name__}: {dict(zip(pn, vals))}; classes:\n{src}")
+                        return
+                    if abs(sum(vals) - 1.0) > 1e-9:
+                        rec.fail(
+                            "C19/multiple-inheritance/not-normalised",
+                            f"rule {a.__name__}: weights {dict(zip(pn, vals))} sum to {sum(vals)} after extraction #{it + 1} (Var inherits from {bases}); declared {decl}",
+                        )
+                        return
+                    d = [1.0 if decl.get(n) is None else float(decl[n]) for n in pn]
+                    for n_, v, dv in zip(pn, vals, d):
+                        if abs(v - dv / sum(d)) > 1e-9:
+                            rec.fail(
+                                "C19/multiple-inheritance/ratio-not-kept",
+                                f"rule {a.__name__}: production {n_} has weight {v}, declared ratios {dict(zip(pn, d))} give {dv / sum(d)} (extraction #{it + 1}; Var inherits from {bases})",
+                            )
+                            return
+                if prev is not None and (set(prev) != set(cur) or any(set(prev[a]) != set(cur[a]) or any(abs(prev[a][n] - cur[a][n]) > 1e-12 for n in cur[a]) for a in cur)):
+                    rec.fail("C19/multiple-inheritance/extraction-not-idempotent", f"weights {prev} became {cur} on extraction #{it + 1}")
+                    return
+                prev = cur
+            if case["extractions"] >= 2:
+                rec.nontrivial((tuple(ws), bases, case["nested_abstract"]))
+        finally:
+            sys.modules.pop(mod.__name__, None)
+
+
 class ShippedWeighted(Facet):
     name = "shipped_symbolic_regression"
     enumerative = True
@@ -394,4 +493,4 @@ class UpdatedAfterConstruction(Facet):
             mat.cleanup()
 
 
-FACETS = [Normalisation(), Choosers(), ShippedWeighted(), UpdatedAfterConstruction()]
+FACETS = [Normalisation(), Choosers(), ShippedWeighted(), UpdatedAfterConstruction(), MultipleInheritance()]
